@@ -1,24 +1,40 @@
 #!/usr/bin/env python3
-"""Run the registered check of each seeded change's property against /repo with the change applied, then revert.
-usage: score_seeded.py [ids...]   (default: all under /verif/seeded). Results are appended to meta.json."""
+"""Run the registered check of each seeded change's property with the change applied.
+Default (isolated): works on scratch copies — /tmp/vscore (rsync of /verif incl. build output) and a git worktree of
+/repo — so that agents and checks running against /repo and /verif are not disturbed; `--in-place` applies the patch to
+/repo itself and reverts it afterwards, as the registered workflow does.
+usage: score_seeded.py [--in-place] [ids...]   (default: all under /verif/seeded). Results go to meta.json."""
 import json, os, subprocess, sys, time
 root = '/verif/seeded'
-ids = sys.argv[1:] or sorted(os.listdir(root))
+args = sys.argv[1:]
+inplace = '--in-place' in args
+args = [a for a in args if a != '--in-place']
+ids = args or sorted(os.listdir(root))
+VS, RS = '/tmp/vscore', '/tmp/rscore'
+if not inplace:
+    subprocess.run(['rsync', '-a', '--delete', '--exclude', '.git', '--exclude', 'replays', '/verif/', VS + '/'], check=True)
+    subprocess.run(['git', '-C', '/repo', 'worktree', 'remove', '--force', RS], capture_output=True)
+    subprocess.run(['git', '-C', '/repo', 'worktree', 'add', '-q', '--detach', RS, 'HEAD'], check=True)
 summary = []
 for sid in ids:
     d = os.path.join(root, sid)
     meta = json.load(open(os.path.join(d, 'meta.json')))
     pid = meta['property']
-    if subprocess.run(['git', '-C', '/repo', 'diff', '--quiet']).returncode != 0:
+    repo = '/repo' if inplace else RS
+    vdir = '/verif' if inplace else VS
+    if subprocess.run(['git', '-C', repo, 'diff', '--quiet']).returncode != 0:
         print('REPO DIRTY'); sys.exit(9)
-    if subprocess.run(['git', '-C', '/repo', 'apply', os.path.join(d, 'patch.diff')]).returncode != 0:
+    if subprocess.run(['git', '-C', repo, 'apply', os.path.join(d, 'patch.diff')]).returncode != 0:
         summary.append((sid, 'patch does not apply')); continue
     try:
         t0 = time.time()
-        p = subprocess.run(['./check', pid, 'quick'], cwd='/verif', capture_output=True, text=True, timeout=1800)
+        env = dict(os.environ)
+        if not inplace:
+            env['VERIF_REPO'] = RS
+        p = subprocess.run(['./check', pid, 'quick'], cwd=vdir, capture_output=True, text=True, timeout=1800, env=env)
         out = p.stdout + p.stderr
     finally:
-        subprocess.run(['git', '-C', '/repo', 'checkout', '--', '.'])
+        subprocess.run(['git', '-C', repo, 'checkout', '--', '.'])
     vio = [l for l in out.split('\n') if l.startswith('VIOLATION')]
     res = {'check': f'./check {pid} quick', 'exit': p.returncode, 'violation_line': vio[0] if vio else None,
            'failing_input_found': bool(vio) and 'no-failing-input-found' not in vio[0],
@@ -29,3 +45,5 @@ for sid in ids:
     summary.append((sid, 'CAUGHT' if p.returncode == 1 else f'MISSED(exit {p.returncode})', 'input' if res['failing_input_found'] else 'no-input', res['wall_s']))
 for s in summary:
     print(*s)
+if not inplace:
+    subprocess.run(['git', '-C', '/repo', 'worktree', 'remove', '--force', RS], capture_output=True)
